@@ -446,8 +446,8 @@ func (w *_nodeRepr) Length() int64 {
 	case schema.UnionRepresentation_Keyed:
 		return (*_node)(w).Length()
 	case schema.UnionRepresentation_Kinded:
-		w = w.asKinded(stg, w.Kind())
-		return (*_node)(w).Length()
+		// the member's representation decides (a struct member leaves out absent fields)
+		return w.asKinded(stg, w.Kind()).Length()
 	default:
 		return (*_node)(w).Length()
 	}
